@@ -335,3 +335,44 @@ Proof.
     + unfold bind. destruct (bmp_units_safe (length b) b E) as [us U]. rewrite U. apply safe_val.
   - unfold bind. destruct (bmp_units_safe (length b) b E) as [us U]. rewrite U. apply safe_val.
 Qed.
+
+(* ---------- subject DN printable characters ---------- *)
+From ZL Require Import Kernels.Utf8.
+Open Scope Z_scope.
+
+Lemma ctl_rune_size s : s <> [] -> (1 <= snd (ctl_rune s) <= length s)%nat.
+Proof.
+  intro NE. unfold ctl_rune.
+  destruct (rune_len s) as [n|] eqn:R.
+  - apply rune_len_bounds in R. destruct R as [[R1 R2] R3].
+    destruct n as [|[|[|n]]]; simpl; lia.
+  - simpl. destruct s; [contradiction|simpl; lia].
+Qed.
+
+Lemma value_has_ctl_safe : forall fuel s, safe (value_has_ctl fuel s).
+Proof.
+  induction fuel as [|f IH]; intro s; simpl; [apply safe_val|].
+  destruct s as [|b r] eqn:S; [apply safe_val|]. rewrite <- S.
+  assert (NE : s <> []) by (rewrite S; discriminate).
+  pose proof (ctl_rune_size s NE) as B.
+  destruct (ctl_rune s) as [c n] eqn:C. simpl in B.
+  destruct c; [apply safe_val|].
+  unfold bind. rewrite slice_in; [apply IH | unfold zlen; lia | unfold zlen; lia].
+Qed.
+
+Theorem dn_not_printable_safe : forall vals, safe (dn_not_printable vals).
+Proof.
+  induction vals as [|v r IH]; simpl; [apply safe_val|].
+  destruct (value_has_ctl_safe (length v) v) as [c E]. unfold bind. rewrite E.
+  destruct c; [apply safe_val | exact IH].
+Qed.
+
+Definition val_ctl (v : bytes) : bool := match value_has_ctl (length v) v with Val c => c | OOR => false end.
+
+(* the verdict is "some value holds a control character": attribute values are judged as a set *)
+Theorem dn_not_printable_exists : forall vals, dn_not_printable vals = Val (if existsb val_ctl vals then 6 else 3).
+Proof.
+  induction vals as [|v r IH]; simpl; [reflexivity|].
+  unfold val_ctl at 1. destruct (value_has_ctl_safe (length v) v) as [c E]. unfold bind. rewrite E.
+  destruct c; simpl; [reflexivity | exact IH].
+Qed.
